@@ -390,10 +390,72 @@ def first_diff(a, b):
     return f"(common prefix {min(len(a), len(b))})"
 
 
+async def slow_reader(net, hyg, plan):
+    """A peer that reads its download slowly but steadily, from a server with socket_timeout configured: whatever the timing,
+    a transfer answered 226 has delivered every byte (one that the server gives up is answered 4xx and has delivered a prefix)."""
+    from ..rawpeer import RawPeer
+    viol = []
+    mon = {"slow_reader": 1}
+    content = make_content(plan["kind"], plan["size"], random.Random(plan["seed"]))
+    w = W.World(net, tree={"/d": "<DIR>", "/d/f.bin": content}, backend="memory", block_size=plan["block_size"],
+                socket_timeout=plan["socket_timeout"])
+    await w.start()
+    try:
+        p = RawPeer(net, 2121)
+        await p.connect()
+        await p.cmd("USER anonymous")
+        await p.cmd("TYPE I")
+        port = p.parse_epsv(await p.cmd("EPSV"))
+        dr, dw = await p.open_data(port)
+        p.send("RETR /d/f.bin")
+        got = bytearray()
+        paused = False
+        while True:
+            try:
+                d = await asyncio.wait_for(dr.read(plan["chunk"]), 60)
+            except (ConnectionError, asyncio.TimeoutError):
+                break
+            if not d:
+                break
+            got += d
+            if plan.get("pause_at") and not paused and len(got) >= len(content) - plan["pause_at"]:
+                # the peer takes a break longer than the time-out when only the last stretch is missing, then goes on reading
+                paused = True
+                await asyncio.sleep(plan["pause"])
+            await asyncio.sleep(plan["gap"])
+        dw.close()
+        codes = []
+        for _ in range(2):
+            r = await p.read_reply(wait=30)
+            if r in (None, "EOF"):
+                codes.append(str(r))
+                break
+            codes.append(r.code)
+            if r.code[0] != "1":
+                break
+        where = (f"RETR of {len(content)} bytes by a peer reading {plan['chunk']} bytes every {plan['gap']}s "
+                 f"(~{int(plan['chunk'] / plan['gap'])} B/s), pausing {plan.get('pause')}s when {plan.get('pause_at')} bytes are missing, "
+                 f"server socket_timeout={plan['socket_timeout']}, block {plan['block_size']}")
+        if codes[-1:] == ["226"]:
+            if bytes(got) != content:
+                viol.append({"key": "completed-but-truncated:slow-reader",
+                             "msg": f"{where}: replies {codes}, {len(got)} of {len(content)} bytes delivered {first_diff(bytes(got), content)}"})
+        elif not content.startswith(bytes(got)):
+            viol.append({"key": "download-not-a-prefix:slow-reader", "msg": f"{where}: replies {codes}, received bytes are not a prefix"})
+        mon["slow_reader_completed"] = int(codes[-1:] == ["226"])
+        p.cut("fin")
+        return viol, mon
+    finally:
+        await w.stop()
+        w.cleanup()
+
+
 def run_case(case):
     out = {"violations": [], "monitors": {}, "sigs": []}
     for plan in case["plans"]:
         async def main(net, hyg, plan=plan):
+            if plan.get("scenario") == "slow_reader":
+                return await slow_reader(net, hyg, plan)
             return await transfer(net, hyg, plan)
         res, info = W.run(main, seed=plan["seed"], net_kwargs=dict(latency=0.0005))
         if res is None:
@@ -401,12 +463,12 @@ def run_case(case):
         viol, mon = res
         for k, v in mon.items():
             out["monitors"][k] = out["monitors"].get(k, 0) + v
-        if plan["size"] >= 2 or (plan["old_size"] or 0) >= 2:
+        if plan["size"] >= 2 or (plan.get("old_size") or 0) >= 2:
             out["sigs"].append(sig_of({k: plan[k] for k in plan if k != "seed"}))
         for v in viol:
             v["replay_case"] = {"plans": [plan]}
             out["violations"].append(v)
-        out.setdefault("sample", {k: plan[k] for k in ("op", "offset", "size", "old_size", "block_size", "kind", "backend", "mss", "passive")})
+        out.setdefault("sample", {k: plan.get(k) for k in ("op", "offset", "size", "old_size", "block_size", "kind", "backend", "mss", "passive")})
     return out
 
 
@@ -532,5 +594,23 @@ def gen_cases(tier, seed):
                         "mss": [1460, 1460, 536], "lat": [0.0005], "reads": [-1], "throttle": thr, "backend_delay": 0}
                 plan["chunks"] = [size] if op != "RETR" else []
                 plans.append(plan)
+    # slow, steady readers against a server with socket_timeout: reading speeds around the one at which the unsent remainder of a
+    # finished transfer takes about as long as the time-out to leave
+    j = 0
+    for T in (0.5, 2.0):
+        for size in ((200000, 400000) if tier == "quick" else (70000, 130000, 200000, 400000, 1000000)):
+            for speed in ((60000, 100000, 115000, 125000, 200000) if tier == "quick" else (30000, 60000, 80000, 95000, 105000, 115000, 125000, 140000, 200000, 1000000)):
+                for chunk in ((4096,) if tier == "quick" else (1024, 4096, 30000)):
+                    j += 1
+                    plans.append({"scenario": "slow_reader", "seed": seed * 31 + j, "size": size, "socket_timeout": T, "chunk": chunk,
+                                  "gap": round(chunk / (speed * 0.5 / T), 5), "block_size": 8192, "kind": CONTENT[j % len(CONTENT)]})
+    for T in (0.5, 2.0):
+        for size in ((600000,) if tier == "quick" else (300000, 600000, 1000000)):
+            # (the peer's own buffers take ~190 KB: the break must come while more than that is missing, and little enough for the
+            # server to have written everything)
+            for pause_at in ((150000, 190000, 205000, 220000) if tier == "quick" else (100000, 150000, 170000, 190000, 200000, 210000, 220000, 230000, 250000)):
+                j += 1
+                plans.append({"scenario": "slow_reader", "seed": seed * 31 + j, "size": size, "socket_timeout": T, "chunk": 8192, "gap": 0.0005,
+                              "pause_at": pause_at, "pause": 3 * T, "block_size": 8192, "kind": CONTENT[j % len(CONTENT)]})
     per = 10
     return [{"plans": plans[i:i + per]} for i in range(0, len(plans), per)]
